@@ -156,6 +156,21 @@ func (ex *Exec) codecIntrinsic(fn *ssa.Function, name string, args []Value) (Val
 	case "github.com/klauspost/compress/zstd.NewReader":
 		return Tuple{&CoderObj{kind: "zstddec", inner: args[0]}, Iface{}}, true
 	}
+	if name == "(*github.com/klauspost/compress/zstd.Encoder).EncodeAll" {
+		// one-shot compression of a sample (the compressibility probe): only the length of the result is used, and only
+		// against one threshold: the stub returns either an empty result or one as long as the input plus the frame header
+		src := args[1].(Slice)
+		n := 0
+		if ex.decide(ex.nondet(BoolSort)) {
+			n = int(ex.concretize(src.len)) + 32
+		}
+		out := make([]*Term, n)
+		for i := range out {
+			out[i] = ex.ts.Const(8, 0)
+		}
+		ex.stubsUsed["zstd.EncodeAll: result either empty or len+32 (compressible / incompressible sample)"]++
+		return ex.mkByteSlice(out), true
+	}
 	if strings.HasPrefix(name, "(*github.com/klauspost/compress/zstd.Encoder).") || strings.HasPrefix(name, "(*github.com/klauspost/compress/zstd.Decoder).") {
 		c, ok := args[0].(*CoderObj)
 		if !ok {
